@@ -304,7 +304,7 @@ GrowConfig2 == unit.config2.n = "-" /\
 GrowStdNamedType == "TON" \notin TypeNames(unit) /\
                Edit(<<"grow:stdnamedtype">>, [unit EXCEPT !.types = Append(@, [n |-> "TON", k |-> "struct",
                                                                               elems |-> <<[n |-> "q", ty |-> "INT", init |-> NoInit]>>])])
-GrowGlobal == (\A g \in Globals(unit) : g.n # "gw") /\ Edit(<<"grow:global">>, [unit EXCEPT !.config.rglobals = Append(@, V("gw", "VAR_GLOBAL", "-", "BOOL", NoInit))])
+GrowGlobal == (\A g \in Globals(unit) : g.n # "gw") /\ (\A i \in 1..Len(unit.config.rglobals) : unit.config.rglobals[i].q = "-") /\ Edit(<<"grow:global">>, [unit EXCEPT !.config.rglobals = Append(@, V("gw", "VAR_GLOBAL", "-", "BOOL", NoInit))])
 GrowPou == (\A p \in Range(unit.pous) : p.n # "EXTRA") /\ Edit(<<"grow:pou">>, [unit EXCEPT !.pous = Append(@, [n |-> "EXTRA", k |-> "fb",
                                    vars |-> <<V("q", "VAR", "-", "INT", NoInit), V("ci", "VAR", "-", "CALLEE", NoInit)>>,
                                    body |-> <<A(NoWrap, "q", <<"int", "1">>), C(NoWrap, "ci", <<<<"in1", "q">>>>, <<>>, <<>>)>>])])
